@@ -78,4 +78,19 @@ example : matchGoBuildGen "//go:build convergen" = true ∧ matchGoBuildGen "// 
 example : ({ groups := [[⟨"f.go:1:1", "// Package p.", 0⟩]], docOf := [some 0, none] } : DocState).docOn
     [(1 * 8 + 4), (0 * 8 + 5)] = none := by decide
 
+/-- only a comment that *is* a directive is scrubbed: the text has to begin (after blanks) with `//`
+(the repaired unanchored search deleted every comment that mentions a directive) -/
+theorem directive_starts_comment (text : String)
+    (h : matchGoBuildGen text = true) :
+    ∃ rest, dropWhileL isReSpace text.toList = '/' :: '/' :: rest := by
+  unfold matchGoBuildGen matchGoBuildGenAt at h
+  split at h
+  · rename_i rest heq
+    exact ⟨rest, heq⟩
+  · cases h
+
+example : matchGoBuildGen "// Helper is kept in sync by hand; do not add a //go:generate line for it." = false := by decide
+example : matchGoBuildGen "/* Legacy note: this file used to start with \"// +build convergen\" only. */" = false := by decide
+example : matchGoBuildGen "//go:generate stringer -type=E" = true := by decide
+
 end Convergen.Props.C11
